@@ -14,7 +14,7 @@
      (5 ms)     delay              (6 trig t) trigger pulse on pin trig, HIGH edge at clock t (us)
      (7 echo r) pulseIn result     (8 (n d))  Serial line, distance n/d                      *)
 From Coq Require Import ZArith QArith List Bool.
-From RV Require Import Base.Wire Device.DButton Device.DPot Device.DUltra.
+From RV Require Import Base.Wire Base.NumC Device.DButton Device.DPot Device.DUltra Host.ButtonHist.
 Import ListNotations.
 Open Scope Z_scope.
 
@@ -471,7 +471,33 @@ Definition un_gate (v : wv) : option (option pdesc) :=
   end.
 
 (* case 0: (0 N W clock0 drifts passgaps buttons pots ultras gate body)  -> (0 setup-events (pass-events ...))
-   case 1: (1 cb samples) -> (0 ((clicked result) ...))   host Button polled once per sample *)
+   case 1: (1 cb samples) -> (0 ((clicked result) ...))   host Button polled once per sample
+   case 2: (2 depth h provider provider-values ops) -> (0 (events-of-call ...) ok)   host Button, whole call history
+           (Host/ButtonHist.v): h = -1 no on_click, n >= 0 a handler that calls is_pressed() n times; provider-values:
+           what the state_provider returns call after call (the last value repeats; none: False);
+           op (0 num) = set_pressed(num), (1) = is_pressed(); num = (0 z) int | (1 (n d)) float | (2 b) bool | (3) None;
+           event (0) = on_click entered, (1 v) = an is_pressed() call returned v; ok = 0: the last call listed ran out
+           of depth (RecursionError) and the history stops there *)
+Definition un_pynum (v : wv) : option pynum :=
+  match v with
+  | WL [WI 0; WI z] => Some (PI z)
+  | WL [WI 1; q] => match un_q q with Some x => Some (PF x) | None => None end
+  | WL [WI 2; b] => match un_bool b with Some x => Some (PB x) | None => None end
+  | WL [WI 3] => Some PO
+  | _ => None
+  end.
+
+Definition un_hop (v : wv) : option hop :=
+  match v with
+  | WL [WI 0; x] => match un_pynum x with Some a => Some (HSet a) | None => None end
+  | WL [WI 1] => Some HPoll
+  | _ => None
+  end.
+
+Definition prov_of (l : list pynum) (k : nat) : bool := truthy (nth k l (last l (PB false))).
+
+Definition w_hev (e : hev) : wv := match e with HClick => WL [WI 0] | HRet v => WL [WI 1; wbool v] end.
+
 Definition run (v : wv) : wv :=
   match v with
   | WL [WI 0; n; WI w; WI clock0; dr; pg; bs; ps; us; g; WL body] =>
@@ -490,6 +516,14 @@ Definition run (v : wv) : wv :=
       | Some cb', Some s' =>
           wok [WL (map (fun r => WL [wbool (fst r); wbool (snd r)]) (host_run cb' (map zbool s')))]
       | _, _ => wbad
+      end
+  | WL [WI 2; d; WI h; pv; pvals; ops] =>
+      match un_nat d, un_bool pv, un_list un_pynum pvals, un_list un_hop ops with
+      | Some d', Some pv', Some pvals', Some ops' =>
+          let r := h_hist d' {| hc_click := if h <? 0 then None else Some (Z.to_nat h); hc_provider := pv' |}
+                          (prov_of pvals') hs_init ops' in
+          wok [WL (map (fun evs => WL (map w_hev evs)) (fst r)); wbool (snd r)]
+      | _, _, _, _ => wbad
       end
   | _ => wbad
   end.
